@@ -16,7 +16,6 @@ NOT_APPLICABLE = {
     "C19": "KL value/gradient/metric equal sample averages: numerical identity over generated Hamiltonians",
     "C20": "agreement with the exact linear-Gaussian posterior is a numerical statement about results",
     "C28": "agreement of two model implementations and variance normalisation across resolutions: numerical",
-    "C34": "exactness of Lanczos/SLQ/ELBO estimators in the limit: numerical",
 }
 
 
